@@ -133,6 +133,8 @@ var plainKeys = [][]string{
 	{"d/x", "d/y", "top"},
 	{"a/b/c", "a/b/d", "a/e", "z"},
 	{"dir/sub/obj.txt", "dir/other", "file"},
+	{"logs/a", "logs-old/b", "logs/c", "logs.d"}, // sibling directories, one name a string prefix of the other
+	{"a/b/x", "a/b-c/y", "a/bb/z", "a/b/w"},
 }
 
 var richKeys = []string{
@@ -496,6 +498,13 @@ func (g *G) genC03(p *Plan, paging bool) {
 		}
 		if i >= len(keys) && g.chance(0.4) {
 			op := Op{K: "del", B: b, Key: k}
+			if g.chance(0.3) {
+				// one batch that may empty several (sibling) directories at once
+				op = Op{K: "delmulti", B: b, Quiet: g.chance(0.3), Keys: []KeyRef{{Key: k}}}
+				for j, m := 0, g.n(1, 4); j < m; j++ {
+					op.Keys = append(op.Keys, KeyRef{Key: keys[g.rng.Intn(len(keys))]})
+				}
+			}
 			if c.Faulty && g.chance(0.3) {
 				op.Faults = []Fault{{Kind: "eio", At: g.n(1, 6)}}
 			}
